@@ -357,11 +357,13 @@ pub enum EncOut {
 }
 
 pub fn enc_v5(codec: &v5::codec::Codec, item: v5::codec::Encoded) -> EncOut {
+    crate::check::b_enter("Codec::encode (the value is printed by the check's own findings; not recorded here)", b"");
     let r = catch_unwind(AssertUnwindSafe(|| {
         let mut dst = BytePages::default();
         let r = codec.encodev(item, &mut dst);
         (r, dst.freeze().to_vec())
     }));
+    crate::check::b_leave();
     match r {
         Ok((Ok(()), b)) => EncOut::Ok(b),
         Ok((Err(e), b)) => EncOut::Err(format!("{e:?}"), b),
@@ -370,11 +372,13 @@ pub fn enc_v5(codec: &v5::codec::Codec, item: v5::codec::Encoded) -> EncOut {
 }
 
 pub fn enc_v3(codec: &v3::codec::Codec, item: v3::codec::Encoded) -> EncOut {
+    crate::check::b_enter("Codec::encode (the value is printed by the check's own findings; not recorded here)", b"");
     let r = catch_unwind(AssertUnwindSafe(|| {
         let mut dst = BytePages::default();
         let r = codec.encodev(item, &mut dst);
         (r, dst.freeze().to_vec())
     }));
+    crate::check::b_leave();
     match r {
         Ok((Ok(()), b)) => EncOut::Ok(b),
         Ok((Err(e), b)) => EncOut::Err(format!("{e:?}"), b),
